@@ -2,6 +2,8 @@
 //   * the property's own oracle: std::multiset<(key,id)> ordered by key (stable insertion, exact hinted insertion),
 //   * the Lean model `btree` (same operation lines; results, counts, traversals, bounds and the complete node
 //     shape = pre-order list of (isLeaf, count, capacity) read through -fno-access-control).
+//   Lookups are made with the key type and with an argument of another type (Probe) wherever the traits allow it; maps
+//   with a key class / pointer key use every spelling of insert / hinted add (Key&&, const Key&, creators, variadic).
 // One source, several executables: -DC02_PART=<k> selects a group of template configurations (compile time).
 #include "momo/TreeSet.h"
 #include "momo/TreeMap.h"
@@ -9,6 +11,7 @@
 #include "common/verif_common.h"
 
 #include <set>
+#include <map>
 #include <vector>
 #include <deque>
 #include <algorithm>
@@ -53,7 +56,52 @@ struct KC {
 };
 inline bool operator<(const KC& a, const KC& b) { return a.k < b.k; }
 
-// mapped values of the three categories (TreeMap<int, V>)
+// copy-only like KC (no move constructor declared, the copy constructor may throw), but assignment by value
+// (copy-and-swap) and a noexcept swap found by ADL: ObjectManager says not nothrow relocatable, not nothrow move
+// assignable, but nothrow swappable => nothrow shiftable: contiguous nodes shift their items with std::iter_swap
+// (ObjectManager::pvShiftNothrow(false_type, true_type)) and an internal item is replaced by its predecessor through
+// pvAssignAnyway(false_type, true_type, ...)
+struct KS {
+	int k; int id; int* p;
+	KS(int k_ = 0, int id_ = 0) : k(k_), id(id_), p(new int(id_)) { ++g_live; }
+	KS(const KS& o) : k(o.k), id(o.id), p(new int(*o.p)) { ++g_live; }
+	KS& operator=(KS o) { swap(*this, o); return *this; }
+	~KS() { drop(); }
+	void drop() { if (p) { if (*p != id) abort(); delete p; p = nullptr; --g_live; } }
+	friend void swap(KS& a, KS& b) noexcept { std::swap(a.k, b.k); std::swap(a.id, b.id); std::swap(a.p, b.p); }
+};
+inline bool operator<(const KS& a, const KS& b) { return a.k < b.k; }
+
+// keys that are pointers: TreeTraits::IsLess(KeyArg1*, KeyArg2*) = std::less<const void*>; key k is the address of cell k
+struct Cell { int k; };
+static const int kCellCount = 1 << 16;
+static Cell g_cells[kCellCount];
+typedef const Cell* PK;
+
+// a lookup argument that is not the key type (heterogeneous GetLowerBound / GetUpperBound / Find / ContainsKey /
+// GetKeyCount): TreeTraits enables it when `key < arg` and `arg < key` are valid, TreeTraitsStd when the comparator is
+// transparent
+struct Probe { int k; };
+inline bool operator<(int a, Probe b) { return a < b.k; }
+inline bool operator<(Probe a, int b) { return a.k < b; }
+#define C02_PROBE_OPS(K) \
+	inline bool operator<(const K& a, Probe b) { return a.k < b.k; } \
+	inline bool operator<(Probe a, const K& b) { return a.k < b.k; }
+C02_PROBE_OPS(KT) C02_PROBE_OPS(KM) C02_PROBE_OPS(KC) C02_PROBE_OPS(KS)
+
+// transparent comparison object with a state that must survive copy / move / swap of the container
+struct TagLess {
+	int tag;
+	explicit TagLess(int tag_ = 0) : tag(tag_) {}
+	typedef void is_transparent;
+	template<class A, class B> bool operator()(const A& a, const B& b) const { return a < b; }
+};
+
+// findings of the typed layer below (it has no access to the context): reported by the runner after the operation
+static std::string g_apiFail;
+static std::map<std::string, uint64_t> g_apiCount;
+
+// mapped values of the four categories (TreeMap<K, V>)
 struct VT { int id; VT(int id_ = 0) : id(id_) {} };
 struct VM {
 	int id; int* p;
@@ -73,6 +121,57 @@ struct VC {
 	~VC() { drop(); }
 	void drop() { if (p) { if (*p != id) abort(); delete p; p = nullptr; --g_live; } }
 };
+struct VS {	// value counterpart of KS
+	int id; int* p;
+	VS(int id_ = 0) : id(id_), p(new int(id_)) { ++g_live; }
+	VS(const VS& o) : id(o.id), p(new int(*o.p)) { ++g_live; }
+	VS& operator=(VS o) { swap(*this, o); return *this; }
+	~VS() { drop(); }
+	void drop() { if (p) { if (*p != id) abort(); delete p; p = nullptr; --g_live; } }
+	friend void swap(VS& a, VS& b) noexcept { std::swap(a.id, b.id); std::swap(a.p, b.p); }
+};
+
+// the relocation category the contiguous layout depends on (UserSettings.h: with gcc every type that declares a move
+// constructor counts as nothrow relocatable, so the type must be copy-only)
+typedef momo::internal::ObjectManager<KS, momo::MemManagerDefault> KSManager;
+typedef momo::internal::ObjectManager<VS, momo::MemManagerDefault> VSManager;
+typedef momo::internal::ObjectManager<KC, momo::MemManagerDefault> KCManager;
+static_assert(!KSManager::isTriviallyRelocatable && !KSManager::isNothrowRelocatable && !KSManager::isNothrowMoveConstructible, "KS must not be nothrow relocatable");
+static_assert(!std::is_nothrow_move_assignable<KS>::value && KSManager::isNothrowSwappable, "KS: assignment may throw, swap does not");
+static_assert(KSManager::isNothrowShiftable && KSManager::isNothrowAnywayAssignable, "KS is shiftable by swaps");
+static_assert(!VSManager::isNothrowRelocatable && !std::is_nothrow_move_assignable<VS>::value && VSManager::isNothrowSwappable && VSManager::isNothrowShiftable, "VS category");
+static_assert(!KCManager::isNothrowRelocatable && !KCManager::isNothrowSwappable && !KCManager::isNothrowShiftable, "KC stays the category that forces the indexed layout");
+
+// how (k, id) becomes a key object of a TreeMap and back; argState: 0 = intact, 1 = moved-from, 2 = damaged, -1 = not observable
+template<class K> struct KeyCodec;
+template<> struct KeyCodec<int> {
+	static const bool movable = false;
+	static int make(int k, int) { return k; }
+	static int k(int key) { return key; }
+	static bool intact(int, int) { return true; }
+	static int argState(int, int, int) { return -1; }
+};
+template<> struct KeyCodec<PK> {
+	static const bool movable = false;
+	static PK make(int k, int) { if (k < 0 || k >= kCellCount) abort(); return &g_cells[k]; }
+	static int k(PK key) { return (int)(key - g_cells); }
+	static bool intact(PK key, int) { return key >= g_cells && key < g_cells + kCellCount && key->k == (int)(key - g_cells); }
+	static int argState(PK, int, int) { return -1; }
+};
+template<class K, bool tMovable> struct ClassKeyCodec {
+	static const bool movable = tMovable;
+	static K make(int k, int id) { return K(k, id); }
+	static int k(const K& key) { return key.k; }
+	static bool intact(const K& key, int id) { return key.id == id && key.p != nullptr && *key.p == id; }
+	static int argState(const K& key, int k, int id) {
+		if (key.k != k || key.id != id) return 2;
+		if (key.p == nullptr) return 1;
+		return *key.p == id ? 0 : 2;
+	}
+};
+template<> struct KeyCodec<KM> : ClassKeyCodec<KM, true> {};
+template<> struct KeyCodec<KS> : ClassKeyCodec<KS, false> {};
+template<> struct KeyCodec<KC> : ClassKeyCodec<KC, false> {};
 
 template<class K> struct KHash { size_t operator()(const K& a) const { return std::hash<long long>()(((long long)a.k << 32) ^ (unsigned)a.id); } };
 template<class K> struct KEq { bool operator()(const K& a, const K& b) const { return a.k == b.k && a.id == b.id; } };
@@ -101,12 +200,74 @@ struct MapCf {
 	typedef TVal Val;
 	typedef momo::TreeNode<tCap, tStep, momo::MemPoolParams<tBlocks, tCached>, tCont> TN;
 	typedef momo::TreeTraits<int, tMulti, TN, tLin> Traits;
+	typedef int Key;
 	typedef momo::TreeMap<int, Val, Traits> Cont;
 	typedef typename Cont::TreeSet Set;
 	static const bool isMap = true, multi = tMulti, lin = tLin, cont = tCont, defaultNode = false;
+	static const bool rich = false;	// one spelling per operation (int lvalue keys)
 	static const size_t cap = tCap, step = (tStep > 0 ? tStep : tCap), blocks = tBlocks, cached = tCached;
 	static Set& set(Cont& c) { return c.mTreeSet; }
 	static const Set& set(const Cont& c) { return c.mTreeSet; }
+};
+
+// TreeMap<K, V> with a key class (KM: movable, so the `Key&&` overloads really differ from the `const Key&` ones;
+// KS / KC: copy-only) or a pointer key; every spelling of insert / hinted add is used (Api<Cf, true>, rich)
+template<class TKey, class TVal, size_t tCap, size_t tStep, size_t tBlocks, size_t tCached, bool tCont, bool tLin, bool tMulti>
+struct MapCfK {
+	typedef TKey Key;
+	typedef TVal Val;
+	typedef momo::TreeNode<tCap, tStep, momo::MemPoolParams<tBlocks, tCached>, tCont> TN;
+	typedef momo::TreeTraits<Key, tMulti, TN, tLin> Traits;
+	typedef momo::TreeMap<Key, Val, Traits> Cont;
+	typedef typename Cont::TreeSet Set;
+	static const bool isMap = true, multi = tMulti, lin = tLin, cont = tCont, defaultNode = false;
+	static const bool rich = true;
+	static const size_t cap = tCap, step = (tStep > 0 ? tStep : tCap), blocks = tBlocks, cached = tCached;
+	static Set& set(Cont& c) { return c.mTreeSet; }
+	static const Set& set(const Cont& c) { return c.mTreeSet; }
+};
+
+// TreeTraitsStd with a transparent comparison object (is_transparent => IsValidKeyArg for every argument type); the
+// object carries a tag that GetTreeTraits().GetLessFunc() must still show after copy / move / swap / clear
+template<class TItem, size_t tCap, size_t tStep, size_t tBlocks, size_t tCached, bool tCont, bool tMulti>
+struct SetCfStdT {
+	typedef TItem Item;
+	typedef momo::TreeNode<tCap, tStep, momo::MemPoolParams<tBlocks, tCached>, tCont> TN;
+	typedef momo::TreeTraitsStd<Item, TagLess, tMulti, TN> Traits;
+	typedef momo::TreeSet<Item, Traits> Cont;
+	typedef Cont Set;
+	static const bool isMap = false, multi = tMulti, lin = Traits::useLinearSearch, cont = tCont, defaultNode = false;
+	static const size_t cap = tCap, step = (tStep > 0 ? tStep : tCap), blocks = tBlocks, cached = tCached;
+	static Set& set(Cont& c) { return c; }
+	static const Set& set(const Cont& c) { return c; }
+	static Cont make() { return Cont(Traits(TagLess(77))); }
+	static bool traitsOk(const Cont& c) { return c.GetTreeTraits().GetLessFunc().tag == 77; }
+};
+template<class TKey, class TVal, size_t tCap, size_t tStep, size_t tBlocks, size_t tCached, bool tCont, bool tMulti>
+struct MapCfStdT {
+	typedef TKey Key;
+	typedef TVal Val;
+	typedef momo::TreeNode<tCap, tStep, momo::MemPoolParams<tBlocks, tCached>, tCont> TN;
+	typedef momo::TreeTraitsStd<Key, TagLess, tMulti, TN> Traits;
+	typedef momo::TreeMap<Key, Val, Traits> Cont;
+	typedef typename Cont::TreeSet Set;
+	static const bool isMap = true, multi = tMulti, lin = Traits::useLinearSearch, cont = tCont, defaultNode = false;
+	static const bool rich = true;
+	static const size_t cap = tCap, step = (tStep > 0 ? tStep : tCap), blocks = tBlocks, cached = tCached;
+	static Set& set(Cont& c) { return c.mTreeSet; }
+	static const Set& set(const Cont& c) { return c.mTreeSet; }
+	static Cont make() { return Cont(Traits(TagLess(77))); }
+	static bool traitsOk(const Cont& c) { return c.GetTreeTraits().GetLessFunc().tag == 77; }
+};
+
+// containers are made by Cf::make() where the configuration has one (stateful traits), else default constructed
+template<class Cf, class = void> struct ContFactory {
+	static typename Cf::Cont make() { return typename Cf::Cont(); }
+	static bool traitsOk(const typename Cf::Cont&) { return true; }
+};
+template<class Cf> struct ContFactory<Cf, decltype(void(Cf::make()))> {
+	static typename Cf::Cont make() { return Cf::make(); }
+	static bool traitsOk(const typename Cf::Cont& c) { return Cf::traitsOk(c); }
 };
 
 // TreeNode<> with its default template arguments (maxCapacity 32, capacityStep 4, MemPoolParams<8>)
@@ -166,6 +327,17 @@ template<class Cf> struct Api<Cf, false> {
 	static It find(const Cont& c, int k) { return c.Find(Item(k, 0)); }
 	static bool contains(const Cont& c, int k) { return c.ContainsKey(Item(k, 0)); }
 	static size_t keyCount(const Cont& c, int k) { return c.GetKeyCount(Item(k, 0)); }
+	// the same five lookups with an argument that is not the key type (template<KeyArg> overloads)
+	static const bool het = Cf::Traits::template IsValidKeyArg<Probe>::value;
+	static bool boundsHet(const Cont& c, int k, It& lb, It& ub, It& fi, bool& has, size_t& kc) {
+		if constexpr (het) {
+			Probe p{ k };
+			lb = c.GetLowerBound(p); ub = c.GetUpperBound(p); fi = c.Find(p); has = c.ContainsKey(p); kc = c.GetKeyCount(p);
+			return true;
+		}
+		else { (void)c; (void)k; (void)lb; (void)ub; (void)fi; (void)has; (void)kc; return false; }
+	}
+	static long initList(Cont&, const std::vector<KI>&) { return -1; }
 	static size_t removeKey(Cont& c, int k) { return c.Remove(Item(k, 0)); }
 	static size_t removePred(Cont& c, int m, int r) { return c.Remove([m, r] (const Item& x) { return x.k % m == r; }); }
 	static KI extItem(const Ext& e) { return KI(e.GetItem().k, e.GetItem().id); }
@@ -179,35 +351,144 @@ template<class Cf> struct Api<Cf, false> {
 
 template<class Cf> struct Api<Cf, true> {
 	typedef typename Cf::Cont Cont;
+	typedef typename Cf::Key Key;
 	typedef typename Cf::Val Val;
+	typedef KeyCodec<Key> KC;
 	typedef typename Cont::ConstIterator It;
 	typedef typename Cont::ExtractedPair Ext;
-	static int key(It it) { return it->key; }
-	static int id(It it) { return it->value.id; }
-	static std::pair<It, bool> insert(Cont& c, int k, int id, bool byCopy) {
-		if (byCopy) { Val v(id); auto r = c.Insert(k, v); return { It(r.position), r.inserted }; }
-		auto r = c.Insert(k, Val(id)); return { It(r.position), r.inserted };
+	static int key(It it) { return KC::k(it->key); }
+	static int id(It it) {
+		// the key object stored in the map carries the same id as the value and its payload
+		if (!KC::intact(it->key, it->value.id) && g_apiFail.empty())
+			g_apiFail = fmt("map key object damaged: key %d stored next to value id %d", KC::k(it->key), it->value.id);
+		return it->value.id;
 	}
-	static It add(Cont& c, It hint, int k, int id) { return c.Add(hint, k, Val(id)); }
+	// after a call that received the key: moved-from exactly when it was passed as rvalue, is movable, and was inserted
+	static void checkArg(const char* what, unsigned var, const Key& arg, int k, int id, bool rvalue, bool inserted) {
+		int st = KC::argState(arg, k, id);
+		if (st < 0) return;
+		int exp = (rvalue && inserted && KC::movable) ? 1 : 0;
+		if (st != exp && g_apiFail.empty())
+			g_apiFail = fmt("%s spelling %u: key argument %d:%d is %s after the call (passed as %s, inserted %d)", what, var, k, id,
+				st == 0 ? "intact" : st == 1 ? "moved-from" : "damaged", rvalue ? "rvalue" : "lvalue", inserted ? 1 : 0);
+	}
+	static std::pair<It, bool> insert(Cont& c, int k, int id, bool byCopy) {
+		if constexpr (!Cf::rich) {
+			if (byCopy) { Val v(id); auto r = c.Insert(k, v); return { It(r.position), r.inserted }; }
+			auto r = c.Insert(k, Val(id)); return { It(r.position), r.inserted };
+		}
+		else {
+			typedef typename Cont::template ValueCreator<Val&&> CrtR;
+			typedef typename Cont::template ValueCreator<const Val&> CrtC;
+			Key key = KC::make(k, id); const Key& ckey = key; Val val(id); const Val& cval = val;
+			unsigned var = byCopy ? 4 + (unsigned)id % 3 : (unsigned)id % 4;
+			typename Cont::InsertResult r;
+			switch (var) {
+			case 0: r = c.Insert(std::move(key), std::move(val)); break;	// Insert(Key&&, Value&&)
+			case 1: r = c.Insert(std::move(key), cval); break;	// Insert(Key&&, const Value&)
+			case 2: r = c.InsertCrt(std::move(key), CrtR(c.GetMemManager(), std::move(val))); break;	// InsertCrt(Key&&, ValueCreator&&)
+			case 3: r = c.InsertVar(std::move(key), id); break;	// InsertVar(Key&&, ValueArgs&&...)
+			case 4: r = c.Insert(ckey, std::move(val)); break;	// Insert(const Key&, Value&&)
+			case 5: r = c.Insert(ckey, cval); break;	// Insert(const Key&, const Value&)
+			default: r = c.InsertCrt(ckey, CrtC(c.GetMemManager(), cval)); break;	// InsertCrt(const Key&, ValueCreator&&)
+			}
+			g_apiCount[fmt("insert.spelling_%u", var)]++;
+			checkArg("insert", var, key, k, id, var < 4, r.inserted);
+			return { It(r.position), r.inserted };
+		}
+	}
+	static It add(Cont& c, It hint, int k, int id) {
+		if constexpr (!Cf::rich) return c.Add(hint, k, Val(id));
+		else {
+			typedef typename Cont::template ValueCreator<Val&&> CrtR;
+			Key key = KC::make(k, id); const Key& ckey = key; Val val(id); const Val& cval = val;
+			unsigned var = (unsigned)id % 7;
+			It res;
+			switch (var) {
+			case 0: res = c.Add(hint, std::move(key), std::move(val)); break;	// Add(iter, Key&&, Value&&)
+			case 1: res = c.Add(hint, std::move(key), cval); break;	// Add(iter, Key&&, const Value&)
+			case 2: res = c.AddVar(hint, std::move(key), id); break;	// AddVar(iter, Key&&, ValueArgs&&...)
+			case 3: {	// AddCrt(iter, PairCreator&&): the creator builds key and value in place
+				auto pairCreator = [k, id] (Key* newKey, Val* newVal) {
+					::new(static_cast<void*>(newKey)) Key(KC::make(k, id));
+					::new(static_cast<void*>(newVal)) Val(id);
+				};
+				res = c.AddCrt(hint, pairCreator); break; }
+			case 4: res = c.AddCrt(hint, std::move(key), CrtR(c.GetMemManager(), std::move(val))); break;	// AddCrt(iter, Key&&, ValueCreator&&)
+			case 5: res = c.Add(hint, ckey, std::move(val)); break;	// Add(iter, const Key&, Value&&)
+			default: res = c.Add(hint, ckey, cval); break;	// Add(iter, const Key&, const Value&)
+			}
+			g_apiCount[fmt("add.spelling_%u", var)]++;
+			checkArg("hinted add", var, key, k, id, var != 3 && var < 5, true);
+			return res;
+		}
+	}
+	// extraCheck = false: the position is not compared with the neighbours (hints that break the order)
 	static It addRaw(Cont& c, It hint, int k, int id) {
 		typedef typename Cont::template ValueCreator<Val&&> Crt;
-		return c.template AddCrt<Crt, false>(hint, static_cast<const int&>(k), Crt(c.GetMemManager(), Val(id)));
+		if constexpr (Cf::rich) {
+			if (id % 2 == 0) {
+				auto pairCreator = [k, id] (Key* newKey, Val* newVal) {
+					::new(static_cast<void*>(newKey)) Key(KC::make(k, id));
+					::new(static_cast<void*>(newVal)) Val(id);
+				};
+				return c.template AddCrt<decltype(pairCreator)&, false>(hint, pairCreator);
+			}
+		}
+		Key key = KC::make(k, id);
+		return c.template AddCrt<Crt, false>(hint, static_cast<const Key&>(key), Crt(c.GetMemManager(), Val(id)));
 	}
 	static size_t insertRange(Cont& c, const std::vector<KI>& v) {
-		std::vector<std::pair<int, Val>> items; for (auto& x : v) items.push_back(std::pair<int, Val>(x.first, Val(x.second)));
+		std::vector<std::pair<Key, Val>> items; for (auto& x : v) items.push_back(std::pair<Key, Val>(KC::make(x.first, x.second), Val(x.second)));
 		return c.Insert(items.begin(), items.end());
 	}
-	static It lower(const Cont& c, int k) { return c.GetLowerBound(k); }
-	static It upper(const Cont& c, int k) { return c.GetUpperBound(k); }
-	static It find(const Cont& c, int k) { return c.Find(k); }
-	static bool contains(const Cont& c, int k) { return c.ContainsKey(k); }
-	static size_t keyCount(const Cont& c, int k) { return c.GetKeyCount(k); }
-	static size_t removeKey(Cont& c, int k) { return c.Remove(k); }
-	static size_t removePred(Cont& c, int m, int r) { return c.Remove([m, r] (const int& key, const Val&) { return key % m == r; }); }
-	static KI extItem(const Ext& e) { return KI(e.GetKey(), e.GetValue().id); }
+	// TreeMap(std::initializer_list<Pair>): a new container from 1..6 pairs, swapped into the (null-root) slot
+	static long initList(Cont& c, const std::vector<KI>& v) {
+		if constexpr (!Cf::rich) { (void)c; (void)v; return -1; }
+		else {
+		typedef std::pair<Key, Val> P;
+		auto p = [&v] (size_t i) { return P(KC::make(v[i].first, v[i].second), Val(v[i].second)); };
+		auto build = [&c] (std::initializer_list<P> il) { Cont t(il); long n = (long)t.GetCount(); c.Swap(t); return n; };
+		switch (v.size()) {
+		case 1: return build({ p(0) });
+		case 2: return build({ p(0), p(1) });
+		case 3: return build({ p(0), p(1), p(2) });
+		case 4: return build({ p(0), p(1), p(2), p(3) });
+		case 5: return build({ p(0), p(1), p(2), p(3), p(4) });
+		case 6: return build({ p(0), p(1), p(2), p(3), p(4), p(5) });
+		default: return -1;
+		}
+		}
+	}
+	static It lower(const Cont& c, int k) { return c.GetLowerBound(KC::make(k, 0)); }
+	static It upper(const Cont& c, int k) { return c.GetUpperBound(KC::make(k, 0)); }
+	static It find(const Cont& c, int k) { return c.Find(KC::make(k, 0)); }
+	static bool contains(const Cont& c, int k) { return c.ContainsKey(KC::make(k, 0)); }
+	static size_t keyCount(const Cont& c, int k) { return c.GetKeyCount(KC::make(k, 0)); }
+	// the same five lookups with an argument that is not the key type; const and non-const overloads must agree
+	static const bool het = Cf::Traits::template IsValidKeyArg<Probe>::value;
+	static bool boundsHet(const Cont& c, int k, It& lb, It& ub, It& fi, bool& has, size_t& kc) {
+		if constexpr (het) {
+			Probe p{ k };
+			lb = c.GetLowerBound(p); ub = c.GetUpperBound(p); fi = c.Find(p); has = c.ContainsKey(p); kc = c.GetKeyCount(p);
+			Cont& m = const_cast<Cont&>(c);
+			typename Cont::Iterator mlb = m.GetLowerBound(p), mub = m.GetUpperBound(p), mfi = m.Find(p);
+			if (!(It(mlb) == lb && It(mub) == ub && It(mfi) == fi) && g_apiFail.empty())
+				g_apiFail = fmt("heterogeneous lookup of key %d: the non-const overloads return other positions than the const ones", k);
+			return true;
+		}
+		else { (void)c; (void)k; (void)lb; (void)ub; (void)fi; (void)has; (void)kc; return false; }
+	}
+	static size_t removeKey(Cont& c, int k) { return c.Remove(KC::make(k, 0)); }
+	static size_t removePred(Cont& c, int m, int r) { return c.Remove([m, r] (const Key& key, const Val&) { return KC::k(key) % m == r; }); }
+	static KI extItem(const Ext& e) { return KI(KC::k(e.GetKey()), e.GetValue().id); }
 	static std::pair<It, bool> insertExt(Cont& c, Ext&& e) { auto r = c.Insert(std::move(e)); return { It(r.position), r.inserted }; }
 	static It addExt(Cont& c, It hint, Ext&& e) { return c.Add(hint, std::move(e)); }
-	static void resetKey(Cont& c, It it, int k) { c.ResetKey(it, k); }
+	static void resetKey(Cont& c, It it, int k) {
+		Key key = KC::make(k, it->value.id);
+		if constexpr (Cf::rich) { if (k % 2 == 0) { c.ResetKey(it, std::move(key)); return; } }
+		c.ResetKey(it, key);
+	}
 	static void mergeTo(Cont& src, Cont& dst) { dst.MergeFrom(src); }
 	template<class I> static auto rawNode(I it) -> decltype(it.mTreeSetIterator.mNode) { return it.mTreeSetIterator.mNode; }
 	template<class I> static size_t rawIndex(I it) { return it.mTreeSetIterator.mItemIndex; }
@@ -264,11 +545,15 @@ struct Box {
 	size_t cap = 0, step = 0, blocks = 0; bool lin = false, multi = false, isMap = false, contRequested = false, contActual = false;
 	bool defaultNode = false;	// TreeNode<> with its default arguments: the model takes them from Momo.Extracted
 	bool statefulTraits = false;	// non-empty TreeTraits class: MergeTo(TreeSet&) always takes the generic path
+	bool initListAvail = false;	// maps that use every spelling of the operations
 	virtual ~Box() {}
 	virtual size_t count(int sl) = 0;
 	virtual bool traverse(int sl, std::vector<KI>& fwd, std::vector<KI>& bwd, size_t limit) = 0;
 	virtual ShapeInfo shape(int sl) = 0;
 	virtual void bounds(int sl, int k, size_t& lb, size_t& ub, size_t& fi, bool& has, size_t& kc) = 0;
+	virtual bool boundsHet(int sl, int k, size_t& lb, size_t& ub, size_t& fi, bool& has, size_t& kc) = 0;	// false: the traits have no heterogeneous lookup
+	virtual long initList(int sl, const std::vector<KI>& v) = 0;	// -1: not available
+	virtual bool traitsOk(int sl) = 0;
 	virtual size_t insert(int sl, int k, int id, bool byCopy, bool& inserted) = 0;
 	virtual size_t add(int sl, size_t hint, int k, int id, bool& hintInternal) = 0;
 	virtual size_t addRaw(int sl, size_t hint, int k, int id) = 0;
@@ -290,6 +575,9 @@ struct Box {
 	virtual void swap(int a, int b) = 0;
 	virtual void clear(int sl) = 0;
 };
+
+template<class Cf, bool isMap = Cf::isMap> struct RichOf { static const bool value = false; };
+template<class Cf> struct RichOf<Cf, true> { static const bool value = Cf::rich; };
 
 template<class Cf, bool isMap = Cf::isMap> struct HashMerge;
 template<class Cf> struct HashMerge<Cf, false> {
@@ -314,13 +602,15 @@ struct BoxT : Box {
 	typedef typename A::It It;
 	typedef typename A::Ext Ext;
 	typedef typename Cf::Set Set;
+	typedef ContFactory<Cf> F;
 	Cont slots[4];
 	Ext holder;
 
-	BoxT() {
+	BoxT() : slots{ F::make(), F::make(), F::make(), F::make() } {
 		cap = Cf::cap; step = Cf::step; blocks = Cf::blocks; lin = Cf::lin; multi = Cf::multi; isMap = Cf::isMap;
 		contRequested = Cf::cont; contActual = Set::Node::isContinuous;
 		defaultNode = Cf::defaultNode; statefulTraits = !std::is_empty<typename Cf::Traits>::value;
+		initListAvail = RichOf<Cf>::value;
 		if (cap != Set::Node::maxCapacity || step != Set::Node::capacityStep) abort();
 	}
 	size_t indexOf(int sl, It it) { return (size_t)std::distance(It(slots[sl].GetBegin()), it); }
@@ -352,6 +642,14 @@ struct BoxT : Box {
 		lb = indexOf(sl, A::lower(t, k)); ub = indexOf(sl, A::upper(t, k)); fi = indexOf(sl, A::find(t, k));
 		has = A::contains(t, k); kc = A::keyCount(t, k);
 	}
+	bool boundsHet(int sl, int k, size_t& lb, size_t& ub, size_t& fi, bool& has, size_t& kc) override {
+		const Cont& t = slots[sl]; It l, u, f;
+		if (!A::boundsHet(t, k, l, u, f, has, kc)) return false;
+		lb = indexOf(sl, l); ub = indexOf(sl, u); fi = indexOf(sl, f);
+		return true;
+	}
+	long initList(int sl, const std::vector<KI>& v) override { return A::initList(slots[sl], v); }
+	bool traitsOk(int sl) override { return F::traitsOk(slots[sl]); }
 	size_t insert(int sl, int k, int id, bool byCopy, bool& inserted) override {
 		auto res = A::insert(slots[sl], k, id, byCopy); inserted = res.second; return indexOf(sl, res.first);
 	}
@@ -410,6 +708,7 @@ struct Runner {
 	Ctx& c; Box& box; Rng rng; std::string name; Suite s;
 	Ref ref[4];
 	bool holderFull = false; KI holderItem;
+	bool husk[4] = { false, false, false, false };	// moved-from containers (no crew: GetTreeTraits() must not be called) and containers with default traits
 	int nextId = 1;
 	std::deque<std::string> recent;
 	uint64_t opNo = 0;
@@ -443,6 +742,14 @@ struct Runner {
 	size_t refIndex(int sl, Ref::iterator it) { return (size_t)std::distance(ref[sl].begin(), it); }
 	Ref::iterator refAt(int sl, size_t i) { return std::next(ref[sl].begin(), (ptrdiff_t)i); }
 
+	// what the typed layer noticed during the last calls (key argument consumed / not consumed, stored key object
+	// damaged, const and non-const overloads disagree)
+	void apiFindings(int sl) {
+		if (g_apiFail.empty()) return;
+		c.fail("C02 %s; %s", g_apiFail.c_str(), context(sl).c_str());
+		g_apiFail.clear();
+	}
+
 	// model-level lines + property-level comparison of the whole state of a slot
 	void dump(int sl, bool force = false) {
 		Ref& r = ref[sl];
@@ -455,6 +762,8 @@ struct Runner {
 		if (box.count(sl) != r.size()) c.fail("C02 count: GetCount()=%zu, reference has %zu; %s", box.count(sl), r.size(), context(sl).c_str());
 		std::vector<KI> fwd, bwd;
 		bool ok = box.traverse(sl, fwd, bwd, r.size() + 2);
+		apiFindings(sl);
+		if (!husk[sl] && !box.traitsOk(sl)) c.fail("C02 traits object: GetTreeTraits().GetLessFunc() of slot %d lost its state; %s", sl, context(sl).c_str());
 		std::vector<KI> expF(r.begin(), r.end()), expB(r.rbegin(), r.rend());
 		if (!ok || fwd != expF) c.fail("C02 forward traversal: got [%s]; %s", seqText(fwd).c_str(), context(sl).c_str());
 		if (!ok || bwd != expB) c.fail("C02 backward traversal: got [%s]; %s", seqText(bwd).c_str(), context(sl).c_str());
@@ -468,12 +777,28 @@ struct Runner {
 		Ref& r = ref[sl];
 		size_t lb, ub, fi, kc; bool has;
 		box.bounds(sl, k, lb, ub, fi, has, kc);
-		op(fmt("q %d %d", sl, k)); s.res(fmt("lb=%zu ub=%zu find=%zu has=%d kc=%zu", lb, ub, fi, has ? 1 : 0, kc));
+		// the same lookups with an argument of another type (template<KeyArg> overloads); every other `q` line carries
+		// their answer to the model, both answers are compared with the reference
+		size_t hlb = 0, hub = 0, hfi = 0, hkc = 0; bool hhas = false;
+		bool het = box.boundsHet(sl, k, hlb, hub, hfi, hhas, hkc);
+		bool useHet = het && (opNo & 1);
+		op(fmt("q %d %d", sl, k));
+		if (useHet) s.res(fmt("lb=%zu ub=%zu find=%zu has=%d kc=%zu", hlb, hub, hfi, hhas ? 1 : 0, hkc));
+		else s.res(fmt("lb=%zu ub=%zu find=%zu has=%d kc=%zu", lb, ub, fi, has ? 1 : 0, kc));
 		size_t elb = refIndex(sl, r.lower_bound(KI(k, 0))), eub = refIndex(sl, r.upper_bound(KI(k, 0)));
 		size_t ekc = eub - elb;
 		if (lb != elb || ub != eub || kc != ekc || has != (ekc > 0) || fi != (ekc > 0 ? elb : r.size()))
 			c.fail("C02 bounds: key %d lower=%zu upper=%zu find=%zu contains=%d keyCount=%zu, reference lower=%zu upper=%zu count=%zu; %s",
 				k, lb, ub, fi, has ? 1 : 0, kc, elb, eub, ekc, context(sl).c_str());
+		if (het) {
+			c.stats.count("query.heterogeneous_argument");
+			if (ekc == 0) c.stats.count(r.empty() ? "query.heterogeneous.empty_container" : elb == 0 ? "query.heterogeneous.absent_below_first" : elb == r.size() ? "query.heterogeneous.absent_above_last" : "query.heterogeneous.absent_inside");
+			else c.stats.count(ekc > 1 ? "query.heterogeneous.present_run_of_equal_keys" : "query.heterogeneous.present");
+			if (hlb != elb || hub != eub || hkc != ekc || hhas != (ekc > 0) || hfi != (ekc > 0 ? elb : r.size()))
+				c.fail("C02 heterogeneous bounds (argument type Probe): key %d lower=%zu upper=%zu find=%zu contains=%d keyCount=%zu, reference lower=%zu upper=%zu count=%zu; %s",
+					k, hlb, hub, hfi, hhas ? 1 : 0, hkc, elb, eub, ekc, context(sl).c_str());
+		}
+		apiFindings(sl);
 	}
 	void queries(int sl, int around) {
 		query(sl, around);
@@ -755,7 +1080,7 @@ struct Runner {
 	void opCopy(int a, int b) {
 		if (a == b) return;
 		box.copy(a, b, rng.chance(1, 2));
-		ref[b] = ref[a];
+		ref[b] = ref[a]; husk[b] = husk[a];
 		op(fmt("copy %d %d", a, b)); s.res(fmt("n=%zu", box.count(b)));
 		c.stats.count("op.copy");
 		dump(a, true); dump(b, true);
@@ -763,6 +1088,7 @@ struct Runner {
 	void opMove(int a, int b) {
 		if (a == b) return;
 		box.move(a, b);
+		husk[b] = husk[a]; husk[a] = true;
 		ref[b].swap(ref[a]); ref[a].clear();
 		op(fmt("move %d %d", a, b)); s.res(fmt("n=%zu", box.count(b)));
 		c.stats.count("op.move");
@@ -770,7 +1096,7 @@ struct Runner {
 	}
 	void opSwap(int a, int b) {
 		if (a == b) return;
-		box.swap(a, b); ref[a].swap(ref[b]);
+		box.swap(a, b); ref[a].swap(ref[b]); std::swap(husk[a], husk[b]);
 		op(fmt("swap %d %d", a, b)); s.res("ok");
 		c.stats.count("op.swap");
 		dump(a, true); dump(b, true);
@@ -911,7 +1237,12 @@ struct Runner {
 			int k = (int)rng.below(60);
 			size_t lb, ub, fi, kc; bool has;
 			box.bounds(sl, k, lb, ub, fi, has, kc);	// no oracle: the sequence is not sorted
+			size_t hlb = 0, hub = 0, hfi = 0, hkc = 0; bool hhas = false;
+			// (the key count stays the homogeneous one: with unique keys GetKeyCount<KeyArg> walks from the lower bound,
+			// GetKeyCount(const Key&) answers ContainsKey ? 1 : 0 - the same on a sorted sequence only)
+			if (box.boundsHet(sl, k, hlb, hub, hfi, hhas, hkc) && (opNo & 1)) { lb = hlb; ub = hub; fi = hfi; has = hhas; if (box.multi) kc = hkc; }
 			op(fmt("q %d %d", sl, k)); s.res(fmt("lb=%zu ub=%zu find=%zu has=%d kc=%zu", lb, ub, fi, has ? 1 : 0, kc));
+			apiFindings(sl);
 		};
 		for (int i = 0; i < steps; ++i) {
 			if (seq.empty() || rng.chance(2, 3)) {
@@ -934,6 +1265,33 @@ struct Runner {
 			}
 		}
 		box.clear(sl); op(fmt("clear %d", sl)); s.res("ok");
+	}
+
+	// TreeMap(std::initializer_list<Pair>) = range insertion into a new container: 1..6 pairs in any order, with
+	// duplicates (model: `insr` on the null-root slot)
+	void initListScenario(int sl) {
+		if (!box.initListAvail) return;
+		for (int len = 1; len <= 6; ++len) {
+			if (box.shape(sl).text != "null") opClear(sl);
+			Ref& r = ref[sl];
+			std::vector<KI> v; std::string line = fmt("insr %d", sl);
+			int k0 = 10 + (int)rng.below(20);
+			for (int j = 0; j < len; ++j) {
+				int k = rng.chance(1, 2) ? k0 + j : k0 + (int)rng.below((uint64_t)len + 1);
+				v.push_back(KI(k, nextId++)); line += fmt(" %d:%d", k, v.back().second);
+			}
+			long n = box.initList(sl, v);
+			if (n < 0) { c.fail("C02 harness: initializer-list construction of %zu pairs is not available; cfg=%s", v.size(), name.c_str()); return; }
+			husk[sl] = true;	// the new container has default-constructed traits (TreeMap(pairs) : TreeMap(pairs, TreeTraits()))
+			op(line); s.res(fmt("added=%ld n=%zu", n, box.count(sl)));
+			size_t exp = 0;
+			for (auto& x : v) if (box.multi || r.find(x) == r.end()) { r.insert(x); ++exp; }
+			if ((size_t)n != exp) c.fail("C02 initializer-list constructor: %ld elements, reference %zu; %s", n, exp, context(sl).c_str());
+			c.stats.count("op.construct_from_initializer_list");
+			dump(sl, true); queryAll(sl);
+			opInsert(sl, k0 + 1); if (!r.empty()) opRemoveIdx(sl, 0);
+		}
+		opClear(sl);
 	}
 
 	void run() {
@@ -962,6 +1320,7 @@ struct Runner {
 		mergeScenarios(nSmall, c.thorough ? nMed : std::max(nSmall * 3, nMed / 2));
 		opDropExt();
 		for (int sl = 0; sl < 4; ++sl) opClear(sl);
+		initListScenario(2);
 		rawScenario(3, c.thorough ? 160 : 40);
 		std::string t; for (auto& r : recent) t += r + "; ";
 		c.stats.sample(name + ": ... " + t, 8);
@@ -977,6 +1336,9 @@ static void runConfig(Ctx& c, const char* name, uint64_t salt)
 		Runner r(c, box, name, salt);
 		r.run();
 	}
+	for (auto& kv : g_apiCount) c.stats.counters[kv.first] += kv.second;
+	g_apiCount.clear();
+	if (!g_apiFail.empty()) { c.fail("C02 %s; cfg=%s seed=%llu", g_apiFail.c_str(), name, (unsigned long long)c.seed); g_apiFail.clear(); }
 	if (g_live != liveBefore) c.fail("C02 element ledger: %ld element payloads still alive after the containers of %s were destroyed", g_live - liveBefore, name);
 	c.stats.count("configs");
 }
@@ -986,6 +1348,7 @@ static void runConfig(Ctx& c, const char* name, uint64_t salt)
 int main(int argc, char** argv)
 {
 	Ctx c = parseArgs(argc, argv);
+	for (int i = 0; i < kCellCount; ++i) g_cells[i].k = i;
 	// naming: <S|M><item category T|M|C>-c<maxCapacity>-s<capacityStep template argument>-b<blockCount>/<cachedFreeBlockCount>-<c|i><l|b><u|m>
 #if C02_PART == 0 || C02_PART == 1
 	RUN("ST-c1-s1-b1.0-clu", SetCf<KT, 1, 1, 1, 0, true, true, false>);
@@ -1048,6 +1411,37 @@ int main(int argc, char** argv)
 	RUN("MC-c32-s4-b8.16-cbu", MapCf<VC, 32, 4, 8, 16, true, false, false>);
 	RUN("ST-c2-s2-b2.1-cbm", SetCf<KT, 2, 2, 2, 1, true, false, true>);
 	RUN("ST-c3-s2-b8.16-clu", SetCf<KT, 3, 2, 8, 16, true, true, false>);
+#endif
+	// naming of the map configurations with a key class / pointer key: M<key category M|S|C|P = pointer><value category T|M|C|S>-...;
+	// `het` = TreeTraitsStd with a transparent comparison object (TagLess)
+#if C02_PART == 0 || C02_PART == 9
+	RUN("MMM-c3-s1-b8.16-clm", MapCfK<KM, VM, 3, 1, 8, 16, true, true, true>);
+	RUN("MMT-c4-s2-b1.0-cbu", MapCfK<KM, VT, 4, 2, 1, 0, true, false, false>);
+	RUN("MMC-c2-s1-b8.16-ilu", MapCfK<KM, VC, 2, 1, 8, 16, false, true, false>);
+	RUN("MMM-c8-s4-b8.16-ibm", MapCfK<KM, VM, 8, 4, 8, 16, false, false, true>);
+	RUN("MPT-c4-s1-b8.16-clm", MapCfK<PK, VT, 4, 1, 8, 16, true, true, true>);
+	RUN("MPM-c5-s2-b1.0-cbu", MapCfK<PK, VM, 5, 2, 1, 0, true, false, false>);
+#endif
+#if C02_PART == 0 || C02_PART == 10
+	static_assert(SetCf<KS, 2, 1, 8, 16, true, true, false>::Set::Node::isContinuous, "KS items live in contiguous nodes");
+	static_assert(MapCf<VS, 3, 1, 8, 16, true, true, true>::Set::Node::isContinuous, "VS values live in contiguous nodes");
+	static_assert(MapCfK<KS, VS, 2, 1, 8, 16, true, false, false>::Set::Node::isContinuous, "KS keys with VS values live in contiguous nodes");
+	static_assert(!MapCfK<KS, VC, 3, 1, 8, 16, true, false, false>::Set::Node::isContinuous, "a value that is not shiftable forces the indexed layout");
+	RUN("SS-c2-s1-b8.16-clu", SetCf<KS, 2, 1, 8, 16, true, true, false>);
+	RUN("SS-c3-s1-b1.0-cbm", SetCf<KS, 3, 1, 1, 0, true, false, true>);
+	RUN("SS-c4-s2-b8.16-clm", SetCf<KS, 4, 2, 8, 16, true, true, true>);
+	RUN("SS-c8-s4-b8.16-cbu", SetCf<KS, 8, 4, 8, 16, true, false, false>);
+	RUN("MS-c3-s1-b8.16-clm", MapCf<VS, 3, 1, 8, 16, true, true, true>);
+	RUN("MSS-c2-s1-b8.16-cbu", MapCfK<KS, VS, 2, 1, 8, 16, true, false, false>);
+	RUN("MSM-c4-s2-b1.0-clm", MapCfK<KS, VM, 4, 2, 1, 0, true, true, true>);
+#endif
+#if C02_PART == 0 || C02_PART == 11
+	RUN("SThet-c3-s1-b8.16-cu", SetCfStdT<KT, 3, 1, 8, 16, true, false>);
+	RUN("SMhet-c4-s2-b1.0-im", SetCfStdT<KM, 4, 2, 1, 0, false, true>);
+	RUN("SShet-c2-s1-b8.16-cm", SetCfStdT<KS, 2, 1, 8, 16, true, true>);
+	RUN("MIThet-c3-s1-b8.16-cm", MapCfStdT<int, VT, 3, 1, 8, 16, true, true>);
+	RUN("MMMhet-c4-s2-b8.16-cu", MapCfStdT<KM, VM, 4, 2, 8, 16, true, false>);
+	RUN("MSC-c3-s1-b8.16-cbu", MapCfK<KS, VC, 3, 1, 8, 16, true, false, false>);
 #endif
 	return c.finish();
 }
